@@ -154,7 +154,11 @@ def parse_segments(text, version=None, encoding_chars=None, validation_level=Non
             segment_name = s[:3]
             for x in xrange(len(parents_refs)):
                 if not find_groups:
-                    segment = parse_segment(s.strip(), version, encoding_chars, validation_level)
+                    # the segment still takes the reference the message structure (or message profile) gives it
+                    ref = None
+                    if references is not None:
+                        ref, _ = _get_segment_reference(segment_name, [(None, references)])
+                    segment = parse_segment(s.strip(), version, encoding_chars, validation_level, ref)
                     segments.append(segment)
                 else:
                     ref, parents_refs = _get_segment_reference(segment_name, parents_refs)
